@@ -43,6 +43,7 @@ type vpC29Cmd struct {
 	ts     uint64
 	sig    [64]byte
 	accept int
+	own    bool // issued by the agent under test itself
 }
 
 func vpC29Sign(priv ed25519.PrivateKey, origin identity.AgentID, id, ts uint64) (sig [64]byte) {
@@ -93,6 +94,24 @@ func vpC29Run(t *rapid.T, maxBurst int) (canon string, nt bool, classes []string
 		c := &vpC29Cmd{wake: rapid.Bool().Draw(t, "wake"), id: idc}
 		c.d0 = rapid.SampledFrom([]int{0, 0, -(vpC29Window - vpC29Margin), vpC29Window - vpC29Margin, 120, -120, 250, 292}).Draw(t, "tsOffset")
 		c.ts = uint64(start.Unix() + int64(c.d0))
+		if rapid.IntRange(0, 3).Draw(t, "issuedHere") == 0 {
+			// the agent issues the command itself (it acts on it and floods it); any copy that
+			// comes back later - with whatever seen-by list - is a second time
+			c.own = true
+			c.d0 = 0
+			c.ts = uint64(start.Unix())
+			c.sig = vpC29Sign(priv, local, c.id, c.ts)
+			var err error
+			if c.wake {
+				err = f.FloodWakeCommand(&protocol.WakeCommand{OriginAgent: local, CommandID: c.id, Timestamp: c.ts, Signature: c.sig})
+			} else {
+				err = f.FloodSleepCommand(&protocol.SleepCommand{OriginAgent: local, CommandID: c.id, Timestamp: c.ts, Signature: c.sig})
+			}
+			hist = append(hist, fmt.Sprintf("issued-here#%d=%v", len(cmds), err))
+			c.accept = 1
+			cmds = append(cmds, c)
+			return
+		}
 		c.sig = vpC29Sign(priv, origin, c.id, c.ts)
 		from := vpSimID(1 + rapid.IntRange(0, 1).Draw(t, "from"))
 		ok := vpC29Deliver(f, c, origin, from)
@@ -118,8 +137,20 @@ func vpC29Run(t *rapid.T, maxBurst int) (canon string, nt bool, classes []string
 			t.Skip("command has left its validity window")
 		}
 		from := vpSimID(1 + rapid.IntRange(0, 1).Draw(t, "from"))
-		ok := vpC29Deliver(f, c, origin, from)
-		hist = append(hist, fmt.Sprintf("replay#%d@+%ds=%v", i, vt, ok))
+		var ok bool
+		if c.own {
+			// the seen-by list is not covered by the signature: a copy that returns to its
+			// issuer need not name it
+			seenBy := [][]identity.AgentID{nil, {from}, {vpSimID(7), from}}[rapid.IntRange(0, 2).Draw(t, "seenBy")]
+			if c.wake {
+				ok = f.HandleWakeCommand(from, &protocol.WakeCommand{OriginAgent: local, CommandID: c.id, Timestamp: c.ts, Signature: c.sig, SeenBy: seenBy})
+			} else {
+				ok = f.HandleSleepCommand(from, &protocol.SleepCommand{OriginAgent: local, CommandID: c.id, Timestamp: c.ts, Signature: c.sig, SeenBy: seenBy})
+			}
+		} else {
+			ok = vpC29Deliver(f, c, origin, from)
+		}
+		hist = append(hist, fmt.Sprintf("replay#%d(own=%v)@+%ds=%v", i, c.own, vt, ok))
 		if cleanups > 0 {
 			afterCleanupReplay = true
 		}
